@@ -43,7 +43,9 @@ pub enum Op {
     FilterMap,
     Mapi,
     FilterMapi,
-    Fold { update: bool, revert: bool },
+    /// `set`: the accumulator is the set (bit mask) of keys with a positive value, an invertible
+    /// but not commutative fold; otherwise a sum
+    Fold { update: bool, revert: bool, #[serde(default)] set: bool },
     Merge,
     Partition,
     PartitionMapi,
@@ -108,6 +110,12 @@ fn f_filter_mapi(k: i64, v: i64) -> Option<i64> {
 fn fold_term(k: i64, v: i64) -> i64 {
     v + 10 * k
 }
+fn set_add(acc: i64, k: i64, v: i64) -> i64 {
+    if v > 0 { acc | (1 << k.rem_euclid(60)) } else { acc }
+}
+fn set_remove(acc: i64, k: i64, v: i64) -> i64 {
+    if v > 0 { acc & !(1 << k.rem_euclid(60)) } else { acc }
+}
 fn f_merge(k: i64, l: Option<i64>, r: Option<i64>) -> Option<i64> {
     match (l, r) {
         (Some(a), None) => Some(a + k),
@@ -144,6 +152,10 @@ fn reference(cfg: &MapCfg, a: &B, b: &B, outer: i64) -> B {
         Op::FilterMap => a.iter().filter_map(|(k, v)| f_filter(*v).map(|x| (*k, x))).collect(),
         Op::Mapi => a.iter().map(|(k, v)| (*k, f_mapi(*k, *v))).collect(),
         Op::FilterMapi => a.iter().filter_map(|(k, v)| f_filter_mapi(*k, *v).map(|x| (*k, x))).collect(),
+        Op::Fold { set: true, .. } => {
+            let s: i64 = a.iter().fold(0, |acc, (k, v)| set_add(acc, *k, *v));
+            [(0, s)].into_iter().collect()
+        }
         Op::Fold { .. } => {
             let s: i64 = a.iter().map(|(k, v)| fold_term(*k, *v)).sum();
             [(0, FOLD_INIT + s)].into_iter().collect()
@@ -212,29 +224,30 @@ where
                 f_filter_mapi(*k, *v)
             })
             .map(|o| o.to_b()),
-        Op::Fold { update, revert } => {
+        Op::Fold { update, revert, set } => {
             let (c1, c2, c3) = (calls.clone(), calls.clone(), calls.clone());
             let add = move |acc: i64, k: &i64, v: &i64| {
                 c1.hit(*k, "add");
-                acc + fold_term(*k, *v)
+                if set { set_add(acc, *k, *v) } else { acc + fold_term(*k, *v) }
             };
             let remove = move |acc: i64, k: &i64, v: &i64| {
                 c2.hit(*k, "remove");
-                acc - fold_term(*k, *v)
+                if set { set_remove(acc, *k, *v) } else { acc - fold_term(*k, *v) }
             };
+            let init = if set { 0 } else { FOLD_INIT };
             let folded: Incr<i64> = if update {
                 input.incr_unordered_fold_update(
-                    FOLD_INIT,
+                    init,
                     add,
                     remove,
                     move |acc: i64, k: &i64, old: &i64, new: &i64| {
                         c3.hit(*k, "update");
-                        acc - fold_term(*k, *old) + fold_term(*k, *new)
+                        if set { set_add(set_remove(acc, *k, *old), *k, *new) } else { acc - fold_term(*k, *old) + fold_term(*k, *new) }
                     },
                     revert,
                 )
             } else {
-                input.incr_unordered_fold(FOLD_INIT, add, remove, revert)
+                input.incr_unordered_fold(init, add, remove, revert)
             };
             folded.map(|s| [(0i64, *s)].into_iter().collect::<B>())
         }
@@ -327,7 +340,7 @@ pub fn gen_plan(prop: &str, seed: u64) -> Plan {
             1 => Op::FilterMap,
             2 => Op::Mapi,
             3 => Op::FilterMapi,
-            4 | 5 => Op::Fold { update: r.chance(1, 2), revert: r.chance(1, 2) },
+            4 | 5 => Op::Fold { update: r.chance(1, 2), revert: r.chance(1, 2), set: r.chance(1, 2) },
             6 => Op::Merge,
             7 => Op::Partition,
             _ => Op::PartitionMapi,
@@ -335,7 +348,7 @@ pub fn gen_plan(prop: &str, seed: u64) -> Plan {
         _ => match r.below(8) {
             0 => Op::Mapi,
             1 => Op::FilterMapi,
-            2 | 3 => Op::Fold { update: r.chance(1, 2), revert: r.chance(1, 2) },
+            2 | 3 => Op::Fold { update: r.chance(1, 2), revert: r.chance(1, 2), set: r.chance(1, 2) },
             4 => Op::Merge,
             5 => Op::PartitionMapi,
             _ => Op::Graph { filter: r.chance(1, 2), cutoff: r.below(4) as u8, f: *r.pick(&[PerKey::PureMap, PerKey::Map2Outer, PerKey::BindOnValue]) },
@@ -665,7 +678,7 @@ pub fn run_on_this_thread(plan: &Plan, keep_trace: bool) -> RunOutput {
                     }
                 }
             }
-            let lines = state.verif_audit(stabilised);
+            let lines = crate::run::full_audit(&state, stabilised);
             audits += 1;
             for l in lines {
                 bad("C11", "audit", l);
